@@ -1,10 +1,10 @@
 CONSTANTS
-  MaxI = 4
+  MaxI = 2
   MaxN = 3
-  MaxC = 3
-  MaxT = 12
-  MinN = 1
-  MinC = 1
+  MaxC = 6
+  MaxT = 16
+  MinN = 2
+  MinC = 4
   MaxSteps = 4
 INIT Init
 NEXT Next
